@@ -2,13 +2,13 @@
 """Fills the tables of DESIGN.md section 9 from seeded/RESULTS.tsv and seeded/*/meta.json.
 Idempotent: the tables live between <!-- BEGIN x --> / <!-- END x --> markers."""
 import csv, json, os, re
-rows = list(csv.DictReader(open('/verif/seeded/RESULTS.tsv'), delimiter='\t'))
+rows = list({r['patch']: r for r in csv.DictReader(open('/verif/seeded/RESULTS.tsv'), delimiter='\t')}.values())
 seeded, sens = [], []
 for r in rows:
     p = r['patch']
     det = f"{r['property']} exit {r['exit']}" + (f" `{r['first signature']}`" if r['first signature'] else '')
     if p.startswith('seeded/'):
-        name = p.split('/')[1]
+        name = [x for x in p.split('/') if x][1]
         meta = json.load(open(f'/verif/seeded/{name}/meta.json'))
         extra = [f"{k} `{v.get('first_signature','')}`" for k, v in meta.get('checks_run_against_it', {}).items() if k != r['property'] and v.get('exit') == 1]
         seeded.append(f"| {name} | {meta['change']} | {det}{'; also ' + ', '.join(extra) if extra else ''} |")
